@@ -167,6 +167,7 @@ class Ctl:
         self.decisions = []          # [options, chosen, current] for multi-choice decisions
         self.steps = 0
         self.max_steps = max_steps
+        self.max_now = 3600.0          # virtual seconds; every scenario of the harness ends long before
         self.zero_iters = 0            # event-loop iterations that found ready callbacks (no virtual time passes)
         self.zero_at_tick = 0
         self.max_zero_iters = 20000
@@ -290,6 +291,12 @@ class Ctl:
                 self._end('hang')
                 return None
             to = min(dl)
+            if to > self.max_now:
+                # virtual time keeps advancing and the program does not finish (e.g. a wait that re-arms its
+                # safety timeout for ever): the execution is a hang, decided in virtual time, not by the wall clock
+                self.log('Hang', why='horizon', thr=sorted(t.name for t in pend))
+                self._end('hang')
+                return None
             if to > self.now:
                 self.now = to
                 self.steps_at_tick = self.steps
